@@ -40,6 +40,24 @@ class Opaque:
         return f"<opaque {self.what}>"
 
 
+class BuiltinRaised(NotConstant):
+    """a builtin / method of a builtin type applied to plain Python values raised: a definite exception of the interpreted program"""
+
+    def __init__(self, cls, text):
+        super().__init__(text)
+        self.cls = cls
+
+
+def _is_plain(x, depth=0):
+    if isinstance(x, (int, float, str, bytes, bool, type(None), bytearray, complex)):
+        return True
+    if depth < 4 and isinstance(x, (list, tuple, set, frozenset)):
+        return all(_is_plain(y, depth + 1) for y in x)
+    if depth < 4 and isinstance(x, dict):
+        return all(_is_plain(k, depth + 1) and _is_plain(v, depth + 1) for k, v in x.items())
+    return False
+
+
 class FuncRef:
     def __init__(self, mod, node):
         self.mod, self.node = mod, node
@@ -89,6 +107,47 @@ class Lazy:
         if self.kind == "repeat":
             return [self.v] * n
         return [self.v[i % len(self.v)] for i in range(n)]
+
+
+TRANSPARENT_DECORATORS = {"property", "setter", "getter", "deleter", "staticmethod", "classmethod", "abstractmethod", "overload", "final", "override", "wraps", "dataclass",
+                          "no_type_check", "abstractproperty"}
+MEMO_DECORATORS = {"lru_cache", "cache"}
+
+
+def decorator_kind(d):
+    """'transparent' | 'memo' | None (unknown) for a decorator expression"""
+    e = d.func if isinstance(d, ast.Call) else d
+    name = e.id if isinstance(e, ast.Name) else e.attr if isinstance(e, ast.Attribute) else None
+    if name in TRANSPARENT_DECORATORS:
+        return "transparent"
+    if name in MEMO_DECORATORS:
+        return "memo"
+    return None
+
+
+_UNDEC = {}
+
+
+def _undecorated(node):
+    u = _UNDEC.get(id(node))
+    if u is None:
+        import copy
+        u = copy.copy(node)
+        u.decorator_list = []
+        _UNDEC[id(node)] = (u, node)
+        return u
+    return u[0]
+
+
+def _same_arg(x, y):
+    if x is y:
+        return True
+    if isinstance(x, (int, str, bytes, float, bool, tuple, frozenset, type(None))) and type(x) is type(y):
+        try:
+            return x == y
+        except Exception:  # noqa
+            return False
+    return False
 
 
 class ConstEval:
@@ -522,6 +581,8 @@ class ConstEval:
             try:
                 r = f(*args, **kw)
             except Exception as ex:
+                if all(_is_plain(a) for a in list(args) + list(kw.values()) + ([f.__self__] if hasattr(f, "__self__") and not isinstance(f.__self__, type(ast)) else [])):
+                    raise BuiltinRaised(type(ex).__name__, f"builtin failed: {ex}")
                 raise NotConstant(f"builtin failed: {ex}")
             if isinstance(r, (range, enumerate, zip, reversed)) or type(r).__name__ in ("dict_items", "dict_keys", "dict_values"):
                 r = list(r)
@@ -600,6 +661,26 @@ class ConstEval:
             return items
         self._in_gen_call = False
         node = f.node
+        memo = False
+        for d in getattr(node, "decorator_list", []):
+            dk = decorator_kind(d)
+            if dk == "memo":
+                memo = True
+            elif dk is None:
+                raise NotConstant(f"decorator `{ast.unparse(d)}` of {node.name} is not interpreted")
+        if memo:
+            # functools.lru_cache / cache: a call with arguments seen before is answered from the cache -- the body (and its effects) is skipped
+            tbl = self.__dict__.setdefault("_memo_tbl", [])
+            key = list(args) + sorted((kw or {}).items())
+            for n_, k_, v_ in tbl:
+                if n_ is node and len(k_) == len(key) and all(_same_arg(x, y) for x, y in zip(k_, key)):
+                    return v_
+            f2 = FuncRef(f.mod, _undecorated(node))
+            if getattr(f, "env", None):
+                f2.env = f.env
+            v = self.call_func(f2, args, kw)
+            tbl.append((node, key, v))
+            return v
         a = node.args
         params = [x.arg for x in a.posonlyargs + a.args]
         loc = dict(getattr(f, "env", None) or {})
